@@ -678,6 +678,41 @@ cast_node_set_to_string(struct lyxp_set *set, char **str)
 }
 
 /**
+ * @brief Get the length in bytes of the first UTF-8 character of a string (the leading byte and its continuation bytes).
+ *
+ * @param[in] str String to examine, must not be empty.
+ * @return Character length in bytes.
+ */
+static uint32_t
+xpath_utf8_char_len(const char *str)
+{
+    uint32_t len = 1;
+
+    while ((str[len] & 0xC0) == 0x80) {
+        ++len;
+    }
+    return len;
+}
+
+/**
+ * @brief Count the UTF-8 characters of a string.
+ *
+ * @param[in] str String to examine.
+ * @return Number of characters.
+ */
+static uint32_t
+xpath_utf8_strlen(const char *str)
+{
+    uint32_t count = 0;
+
+    while (*str) {
+        str += xpath_utf8_char_len(str);
+        ++count;
+    }
+    return count;
+}
+
+/**
  * @brief Cast a string into an XPath number.
  *
  * @param[in] str String to use.
@@ -5189,11 +5224,11 @@ xpath_string_length(struct lyxp_set **args, uint32_t arg_count, struct lyxp_set 
     if (arg_count) {
         rc = lyxp_set_cast(args[0], LYXP_SET_STRING);
         LY_CHECK_RET(rc);
-        set_fill_number(set, strlen(args[0]->val.str));
+        set_fill_number(set, xpath_utf8_strlen(args[0]->val.str));
     } else {
         rc = lyxp_set_cast(set, LYXP_SET_STRING);
         LY_CHECK_RET(rc);
-        set_fill_number(set, strlen(set->val.str));
+        set_fill_number(set, xpath_utf8_strlen(set->val.str));
     }
 
     return LY_SUCCESS;
@@ -5283,11 +5318,12 @@ xpath_substring(struct lyxp_set **args, uint32_t arg_count, struct lyxp_set *set
     /* find matching character positions */
     str_start = 0;
     str_len = 0;
-    for (pos = 0; args[0]->val.str[pos]; ++pos) {
+    for (pos = 0; args[0]->val.str[str_start + str_len]; ++pos) {
+        /* positions are counted in characters */
         if (pos < start) {
-            ++str_start;
-        } else if (pos < start + len) {
-            ++str_len;
+            str_start += xpath_utf8_char_len(args[0]->val.str + str_start);
+        } else if ((arg_count < 3) || (pos < start + len)) {
+            str_len += xpath_utf8_char_len(args[0]->val.str + str_start + str_len);
         } else {
             break;
         }
@@ -5489,7 +5525,7 @@ xpath_sum(struct lyxp_set **args, uint32_t UNUSED(arg_count), struct lyxp_set *s
 static LY_ERR
 xpath_translate(struct lyxp_set **args, uint32_t UNUSED(arg_count), struct lyxp_set *set, uint32_t options)
 {
-    uint32_t i, j, new_used;
+    uint32_t i, j, new_used, clen, clen2;
     char *new;
     ly_bool have_removed;
     struct lysc_node_leaf *sleaf;
@@ -5530,34 +5566,39 @@ xpath_translate(struct lyxp_set **args, uint32_t UNUSED(arg_count), struct lyxp_
     rc = lyxp_set_cast(args[2], LYXP_SET_STRING);
     LY_CHECK_RET(rc);
 
-    new = malloc((strlen(args[0]->val.str) + 1) * sizeof(char));
+    /* a character can be replaced by a longer one (at most 4 bytes for every byte) */
+    new = malloc((4 * strlen(args[0]->val.str) + 1) * sizeof(char));
     LY_CHECK_ERR_RET(!new, LOGMEM(set->ctx), LY_EMEM);
     new_used = 0;
 
-    have_removed = 0;
-    for (i = 0; args[0]->val.str[i]; ++i) {
+    have_removed = 1;
+    for (i = 0; args[0]->val.str[i]; i += clen) {
         ly_bool found = 0;
+        const char *to;
 
-        for (j = 0; args[1]->val.str[j]; ++j) {
-            if (args[0]->val.str[i] == args[1]->val.str[j]) {
-                /* removing this char */
-                if (j >= strlen(args[2]->val.str)) {
-                    have_removed = 1;
-                    found = 1;
-                    break;
-                }
-                /* replacing this char */
-                new[new_used] = args[2]->val.str[j];
-                ++new_used;
+        /* characters, not bytes, are compared and replaced */
+        clen = xpath_utf8_char_len(args[0]->val.str + i);
+        to = args[2]->val.str;
+        for (j = 0; args[1]->val.str[j]; j += clen2) {
+            clen2 = xpath_utf8_char_len(args[1]->val.str + j);
+            if ((clen == clen2) && !strncmp(args[0]->val.str + i, args[1]->val.str + j, clen)) {
+                if (*to) {
+                    /* replacing this char */
+                    memcpy(new + new_used, to, xpath_utf8_char_len(to));
+                    new_used += xpath_utf8_char_len(to);
+                } /* else removing this char */
                 found = 1;
                 break;
+            }
+            if (*to) {
+                to += xpath_utf8_char_len(to);
             }
         }
 
         /* copying this char */
         if (!found) {
-            new[new_used] = args[0]->val.str[i];
-            ++new_used;
+            memcpy(new + new_used, args[0]->val.str + i, clen);
+            new_used += clen;
         }
     }
 
